@@ -56,6 +56,8 @@ def consistent_frames(exons, sn, start):
 def _cds_case(repo, it, S, spec):
     exons, sn, start, cs, ce = spec[:5]
     cstrand = spec[5] if len(spec) > 5 else "PLUS"
+    extras = spec[6] if len(spec) > 6 else True  # codon windows and proteins on the chunk view (thinned in the quick tier)
+    frames_only = len(spec) > 7 and spec[7] == "frames"  # C05.RC asks for the chunk_relative_frames answers only
     out = []
     n = 0
     CDS = "gene.cds:CDSInterval"
@@ -83,6 +85,8 @@ def _cds_case(repo, it, S, spec):
             return 1, [("chunk construct " + cat, f"{desc}: construction on the chunk raises {ex.exc_name}", q("__init__").qual)]
         return 1, []
     codons = walker(list(exons), sn, frames)
+    if frames_only:
+        return _chunk_frames_part(repo, it, S, q, desc, cat, exons, sn, start, cs, ce, to_chrom, part, inside_any, n, out)
     # chromosome-level answers unchanged
     for m in ("to_dict",):
         n += 1
@@ -128,7 +132,7 @@ def _cds_case(repo, it, S, spec):
         out.append(("chunk coding sequence " + cat + " raises", f"{desc}: extract_sequence on the chunk raises {v}; expected {wseq!r}", q("extract_sequence").qual))
     # codon windows on the chunk view: the whole-chromosome codons fully inside both the chunk and the window (the window is
     # given in chromosome coordinates; frame is kept at the window's 5' edge as well)
-    if inside_any and codons:
+    if inside_any and codons and extras:
         lo, hi = exons[0][0], exons[-1][1]
         seen_w = set()
         for ws, we in ((lo + 1, hi), (lo + 4, None), (None, hi - 4), (cs + 1, ce), (cs + 2, None), (cs, ce - 1), (lo + 2, hi - 2)):
@@ -154,7 +158,7 @@ def _cds_case(repo, it, S, spec):
                             f"codons fully inside the chunk and the window: {wantw}", q("scan_chunk_relative_codon_locations").qual))
     # the protein of the chunk view is the stretch of the whole-chromosome protein made by the codons inside the chunk: the
     # start-codon rule of a table belongs to the first codon of the CDS, not to the first codon that happens to be visible
-    if want and codons:
+    if want and codons and extras:
         whole_seq = "".join(bases(c, sn) for c in codons)
         i0 = codons.index(want[0])
         for table in ("DEFAULT", "STANDARD", "PROKARYOTE"):
@@ -168,6 +172,10 @@ def _cds_case(repo, it, S, spec):
                 subj = f"chunk protein {cat}" if cat.startswith("[single-exon, start frame nonzero, 5' end cut") else f"chunk protein [{first}]"
                 out.append((subj, f"{desc}: translate(table={table}) on the chunk -> {k}:{got}; the whole-chromosome protein "
                             f"{translate_ref(whole_seq, table)!r} restricted to the codons inside the chunk is {wp!r}", q("translate").qual))
+    return _chunk_frames_part(repo, it, S, q, desc, cat, exons, sn, start, cs, ce, to_chrom, part, inside_any, n, out)
+
+
+def _chunk_frames_part(repo, it, S, q, desc, cat, exons, sn, start, cs, ce, to_chrom, part, inside_any, n, out):
     # chunk-relative frames: every chunk-relative block is annotated with the frame the uninterrupted reading frame has at
     # its 5' end (5' by the direction of the CDS)
     if inside_any:
@@ -293,15 +301,17 @@ def rk_cds(ctx):
                 for start in (0, 1, 2):
                     for j, (cs, ce) in enumerate(_windows(lay, False)):
                         if (j + start) % 4 == 0:
-                            specs.append((lay, sn, start, cs, ce))
+                            specs.append((lay, sn, start, cs, ce, "PLUS", (j + start) % 8 == 0))
     for lay in lays:
         for sn in ("PLUS", "MINUS"):
             for start in (0, 1, 2):
                 for j, (cs, ce) in enumerate(_windows(lay, ctx.thorough)):
-                    specs.append((lay, sn, start, cs, ce))
+                    if not ctx.thorough and len(lay) > 1 and (j + start) % 2:
+                        continue  # quick tier: every other window of the two-exon layouts (alternating with the start frame)
+                    specs.append((lay, sn, start, cs, ce, "PLUS", ctx.thorough or (j + 2 * start) % 3 == 0))
                     # the same twin on a chunk that is the reverse strand of the chromosome stretch
                     if ctx.thorough or (j + start) % 3 == 0:
-                        specs.append((lay, sn, start, cs, ce, "MINUS"))
+                        specs.append((lay, sn, start, cs, ce, "MINUS", ctx.thorough or (j + start) % 6 == 0))
     ctx.r.floor("C07.RK", "CDS twin cases", len(specs), 300)
     results = pmap(_runner(ctx.repo, _cds_case), specs)
     _report(ctx, "C07.RK", results, [(f"gene.cds:CDSInterval.{m}", "chunk twin = chromosome twin restricted to the chunk") for m in (
